@@ -16,6 +16,10 @@ def unsafeOf (fn : String) : Option (List UInt8) :=
   | "safely_unquote_fragment" => some Gen.Quote.unsafeForFragment
   | _ => none
 
+def unquoterNames : List String :=
+  ["safely_unquote_auth_item", "safely_unquote_path", "safely_unquote_query_item",
+    "safely_unquote_fragment"]
+
 def call (fn : String) (s : List Char) : Option (List Char) :=
   match fn with
   | "safely_quote" => some (safelyQuote s)
@@ -29,6 +33,21 @@ def handle (f : String) (j : Json) : Option Json :=
     match call (fieldStr j "fn") s with
     | some r => some (jstr (unchars r))
     | none => some (jerr "bad-fn")
+  | "chains" =>
+    -- the compositions the theorems of Props/C14 speak about (and `canonicalize_url` applies):
+    -- per unquoter u: q(u s), u(q(u s)), q(u(q(u s))), u(u s), u(upper s), upper(u s);
+    -- then upper(upper s), q(upper s), upper(q s), q(q s)
+    let s := chars (fieldStr j "s")
+    let per := unquoterNames.flatMap fun fn =>
+      match unsafeOf fn with
+      | some U =>
+        let u := safelyUnquote U
+        [safelyQuote (u s), u (safelyQuote (u s)), safelyQuote (u (safelyQuote (u s))), u (u s),
+          u (upperQuoted s), upperQuoted (u s)]
+      | none => []
+    let rest := [upperQuoted (upperQuoted s), safelyQuote (upperQuoted s), upperQuoted (safelyQuote s),
+      safelyQuote (safelyQuote s)]
+    some (jlist ((per ++ rest).map fun r => jstr (unchars r)))
   | "pct" => some (bytesJson (pctStr (chars (fieldStr j "s"))))
   | "utf8seg" =>
     -- segmentation of a byte list: [["c", codepoint] | ["b", byte]]
